@@ -42,7 +42,7 @@ def run(run, replay=None):
                 h.parse(bytes(e1['bytes']), same_contents_as=1)
         traces.append(h.trace(n, CHK))
         n += 1
-    ws = wgen.walks(run, rng, 350 if quick else 10000, 12 if quick else 24, 0)
+    ws = wgen.walks(run, rng, 350 if quick else 4000, 12 if quick else 24, 0)
     for b in ws:
         calls = wgen.conc(b, rng)
         for _op, kw in calls:       # the quantifier of C06 (as C01) has indent >= 0
@@ -62,7 +62,7 @@ def run(run, replay=None):
     run.sample({'kind': 'canonical', 'bytes': len(data), 'head': data[:100].decode('latin-1')})
     paths = [p for p in _rcommon.legal_paths(run, 8) if len(p) >= 2]
     nf = 0
-    while nf < (350 if quick else 10000):
+    while nf < (350 if quick else 4000):
         ids = rng.choice(paths)
         unknown = None
         r = rng.random()
